@@ -527,12 +527,14 @@ func (pd *pending) take(p []byte, u *user) bool {
 
 // exSpec is one planned exchange.
 type exSpec struct {
-	L       int
-	Class   int
-	RepL    []int // reply lengths (0..2 replies)
-	RClass  int
-	Delay   time.Duration
-	LossKey string // violation key if this light-load exchange loses its reply (default light-load-reply-lost)
+	L         int
+	Class     int
+	RepL      []int // reply lengths (0..2 replies)
+	RClass    int
+	Delay     time.Duration
+	LossKey   string // violation key if this light-load exchange loses its reply (default light-load-reply-lost)
+	ArriveKey string // violation key if this light-load datagram never reaches the backend (default light-load-datagram-lost)
+	Note      string // context appended to a liveness violation of this exchange
 }
 
 // prepare registers the request and its planned replies; returns the id and payload.
@@ -672,11 +674,14 @@ func (u *user) exchange(sp exSpec, wait time.Duration, must bool) bool {
 	}
 	if !arrived {
 		key := "light-load-datagram-lost"
+		if sp.ArriveKey != "" {
+			key = sp.ArriveKey
+		}
 		if overFrame(sp.L) {
 			key = overFrameKey
 		}
-		cs.c.Violation(key, "light load (one datagram outstanding per user): datagram %v of %d bytes sent by user %d to %s (%s) never reached the backend within %v",
-			id, sp.L, u.Idx, u.tun.Public, u.tun.describe(), wait+sp.Delay)
+		cs.c.Violation(key, "light load (one datagram outstanding per user): datagram %v of %d bytes sent by user %d to %s (%s) never reached the backend within %v%s",
+			id, sp.L, u.Idx, u.tun.Public, u.tun.describe(), wait+sp.Delay, sp.Note)
 		return false
 	}
 	key := "light-load-reply-lost"
@@ -688,8 +693,8 @@ func (u *user) exchange(sp exSpec, wait time.Duration, must bool) bool {
 			key = overFrameKey
 		}
 	}
-	cs.c.Violation(key, "light load: the backend received datagram %v and sent %d replies (lengths %v, after %v) but %d (lengths %v) never reached user %d at %s within %v (%s)",
-		id, len(plan.Payloads), sp.RepL, sp.Delay, missing, ml, u.Idx, u.conn.LocalAddr(), wait+sp.Delay, u.tun.describe())
+	cs.c.Violation(key, "light load: the backend received datagram %v and sent %d replies (lengths %v, after %v) but %d (lengths %v) never reached user %d at %s within %v (%s)%s",
+		id, len(plan.Payloads), sp.RepL, sp.Delay, missing, ml, u.Idx, u.conn.LocalAddr(), wait+sp.Delay, u.tun.describe(), sp.Note)
 	return false
 }
 
